@@ -21,8 +21,8 @@ HARNESS = {
                     "                                     'battery_level': battery_level, 'sketch_name': None, 'sketch_version': None})\n"
                     "    b = schema.handle_compatibility({'sensor_id': sensor_id, 'type': None, 'protocol_version': protocol_version})\n"
                     "    return (a, b)\n"),
-    "legacy_child": ("def legacy_child(schema, cid, ctype, description):\n"
-                     "    return schema.handle_compatibility({'id': cid, 'type': ctype, 'description': description})\n"),
+    "legacy_child": ("def legacy_child(schema, cid, ctype, description, v):\n"
+                     "    return schema.handle_compatibility({'id': cid, 'type': ctype, 'description': description, 'values': {'47': v, '0': '20.5'}})\n"),
 }
 
 
@@ -50,9 +50,12 @@ def contracts():
                                                       "not ('sensor_id' in result[0]) and not ('type' in result[0])"),
                                  P("C13/legacy-node-null-type-is-gateway", "result[1]['node_type'] == 18 and result[1]['node_id'] == sensor_id")],
                         raises={}, check_wf=False)
-    leg_child = Contract("harness.legacy_child", params={"schema": CS, "cid": TInt, "ctype": TInt, "description": TStr},
+    leg_child = Contract("harness.legacy_child", params={"schema": CS, "cid": TInt, "ctype": TInt, "description": TStr, "v": TStr},
                          ensures=[P("C13/legacy-child", "result['child_id'] == cid and result['child_type'] == ctype and result['description'] == description "
-                                                        "and not ('id' in result) and not ('type' in result)")], raises={}, check_wf=False)
+                                                        "and not ('id' in result) and not ('type' in result)"),
+                                  # the hook only renames keys: every stored value - the empty string included - reaches the schema's own fields
+                                  P("C13/legacy-child-keeps-values", "'47' in result['values'] and result['values']['47'] == v and result['values']['0'] == '20.5'")],
+                         raises={}, check_wf=False)
     return {"make_node_all": mk_node, "make_child_all": mk_child, "legacy_node": leg_node, "legacy_child": leg_child}
 
 
